@@ -1915,6 +1915,20 @@ where
     }
 }
 
+#[cfg(rustaudio_dasp_verif)]
+#[doc(hidden)]
+impl<S> Phase<S> {
+    /// Verification hook: construct a `Phase` holding an explicit stored phase.
+    pub fn verif_from_state(step: S, next: f64) -> Self {
+        Phase { step, next }
+    }
+
+    /// Verification hook: the stored phase that the next call will yield.
+    pub fn verif_next(&self) -> f64 {
+        self.next
+    }
+}
+
 impl<S> Phase<S>
 where
     S: Step,
